@@ -1,0 +1,56 @@
+//go:build verif
+
+package CFB8
+
+// govc contracts for this package (see /verif/DESIGN.md). Comment-only.
+
+// ---------------------------------------------------------------- CFB8 (C10)
+//
+// AES-CFB8 over a 16-byte shift register: for input byte j, with register R_j,
+//   out[j] = in[j] xor hi8(E(R_j)),   R_{j+1} = (R_j << 8) | c_j,   c_j = ciphertext byte = de ? in[j] : out[j].
+// cfbR(j, k) is byte k of R_j written in closed form over the entry register (iv[ivPos .. ivPos+16))
+// and the ciphertext bytes; E is the uninterpreted block encryption aesE(block, .).
+
+//@ define cfbC(cf, src, dst, j) = ite(cf.de, old(src[j]), dst[j])
+//@ define cfbR(cf, src, dst, j, k) = ite(j + k < 16, old(cf.iv[cf.ivPos + j + k]), cfbC(cf, src, dst, j + k - 16))
+
+//@ func (*CFB8).xorKeyStream(cf; dst, src)
+//@   mayalias dst, src
+//@   split cf.de in 0..1
+//@   requires cf.blockSize == 16 && len(cf.iv) == 48 && 0 <= cf.ivPos && cf.ivPos <= 32 && len(dst) >= len(src) && !isnil(cf.c)
+//@   requires base(dst) != base(src) || off(dst) == off(src)
+//@   requires base(cf.iv) != base(dst) && base(cf.iv) != base(src) && base(cf.iv) != base(cf)
+//@   loop 0: modifies cf.iv[:], cf.ivPos, dst[0:len(src)]
+//@   loop 0: split cf.ivPos in 0..32
+//@   loop 0: invariant -1 <= rangeindex && rangeindex < len(src) || (rangeindex == -1 && len(src) == 0)
+//@   loop 0: invariant 0 <= cf.ivPos && cf.ivPos <= 32
+//@   loop 0: invariant all(k, 0, 16, cf.iv[cf.ivPos + k] == cfbR(cf, src, dst, rangeindex + 1, k))
+//@   loop 0: invariant all(j, 0, rangeindex + 1, dst[j] == old(src[j]) ^ hi8(aesE(stream(cf.c), vec16(k, cfbR(cf, src, dst, j, k)))))
+//@   loop 0: invariant all(j, rangeindex + 1, len(src), src[j] == old(src[j]))
+//@   loop 0: hint j = rangeindex + 1
+//@   loop 0: hint j = rangeindex + 2
+//@   ensures 0 <= cf.ivPos && cf.ivPos <= 32                                         [@wf]
+//@   ensures all(j, 0, len(src), dst[j] == old(src[j]) ^ hi8(aesE(stream(cf.c), vec16(k, cfbR(cf, src, dst, j, k)))))   [@value]
+//@   ensures all(k, 0, 16, cf.iv[cf.ivPos + k] == cfbR(cf, src, dst, len(src), k))   [@value]
+//@   modifies cf.iv[:], cf.ivPos, dst[0:len(src)]                                    [@frame]
+
+// XORKeyStream for messages of at most two blocks: always the byte-at-a-time path (the bulk path
+// needs len(src) > 32; its loops are therefore unreachable here and annotated `unroll 0`).
+//@ func (*CFB8).XORKeyStream(cf; dst, src)
+//@   mayalias dst, src
+//@   requires len(src) <= 32
+//@   requires cf.blockSize == 16 && len(cf.iv) == 48 && 0 <= cf.ivPos && cf.ivPos <= 32 && !isnil(cf.c)
+//@   requires base(dst) != base(src) || off(dst) == off(src)
+//@   requires base(cf.iv) != base(dst) && base(cf.iv) != base(src) && base(cf.iv) != base(cf)
+//@   loop 0: unroll 0
+//@   loop 1: unroll 0
+//@   loop 2: unroll 0
+//@   panics when len(src) != 0 && len(dst) < len(src)
+//@   ensures 0 <= cf.ivPos && cf.ivPos <= 32                                         [@wf]
+//@   ensures all(j, 0, len(src), dst[j] == old(src[j]) ^ hi8(aesE(stream(cf.c), vec16(k, cfbR(cf, src, dst, j, k)))))   [@value]
+//@   ensures all(k, 0, 16, cf.iv[cf.ivPos + k] == cfbR(cf, src, dst, len(src), k))   [@value]
+//@   modifies cf.iv[:], cf.ivPos, dst[0:len(src)]                                    [@frame]
+
+// dec(enc(m)) == m: both directions run the same register sequence over the ciphertext, so the
+// key stream bytes coincide and the xor cancels (ks is the key stream byte as a function of the register).
+//@ lemma cfb8_dec_enc(m u8, ks u8): (m ^ ks) ^ ks == m
